@@ -130,6 +130,12 @@ type IdP struct {
 	OnToken func(call *TokenCall) string
 	// OnJWKS is called at JWKS-endpoint entry; returning false makes it answer 500.
 	OnJWKS func() bool
+	// RichCodes: authorization codes contain '/', '+' and '=' (escaped in the callback URL, as a browser would get it)
+	RichCodes bool
+	// AuthMethods is what FullMetadata announces as token_endpoint_auth_methods_supported (nil = basic and post)
+	AuthMethods []string
+	// FullMetadata: the discovery document also lists the endpoints and capabilities this service has no use for
+	FullMetadata bool
 	// AtHash: ID tokens carry at_hash, the hash of the access token issued WITH them (OIDC Core 3.1.3.6)
 	AtHash bool
 	// JWKSHeaders are added to every JWKS answer (cache directives)
@@ -227,6 +233,10 @@ func (p *IdP) Authorize(location, sub string) (string, *AuthReq, error) {
 		return "", a, fmt.Errorf("authorization request refused: scope %q does not contain openid as a space-separated token", a.Scope)
 	}
 	a.Code = p.marker("code")
+	if p.RichCodes {
+		// codes as real providers hand them out: characters that have to be escaped in a query string
+		a.Code = "4/0A" + a.Code + "+/=="
+	}
 	p.codes[a.Code] = a
 	ru, err := url.Parse(a.RedirectURI)
 	if err != nil {
@@ -279,6 +289,9 @@ func (p *IdP) ServeHTTP(w http.ResponseWriter, r *http.Request) {
 	switch r.URL.Path {
 	case "/token":
 		p.serveToken(w, r)
+	case "/revoke", "/introspect", "/userinfo":
+		w.Header().Set("Content-Type", "application/json")
+		_, _ = w.Write([]byte("{}"))
 	case "/jwks":
 		atomic.AddInt64(&p.JWKSHits, 1)
 		if p.OnJWKS != nil && !p.OnJWKS() {
@@ -310,6 +323,19 @@ func (p *IdP) ServeHTTP(w http.ResponseWriter, r *http.Request) {
 		}
 		if !p.NoEndSession {
 			d["end_session_endpoint"] = p.EndSessionURL()
+		}
+		if p.FullMetadata {
+			// the rest of what a provider usually publishes (RFC 8414, OIDC discovery, session management)
+			for k, v := range map[string]any{
+				"userinfo_endpoint": p.Base() + "/userinfo", "revocation_endpoint": p.Base() + "/revoke", "introspection_endpoint": p.Base() + "/introspect",
+				"registration_endpoint": p.Base() + "/register", "check_session_iframe": p.Base() + "/session", "device_authorization_endpoint": p.Base() + "/device",
+				"scopes_supported": []string{"openid", "email", "profile", "offline_access"}, "grant_types_supported": []string{"authorization_code", "refresh_token"},
+				"subject_types_supported": []string{"public"}, "id_token_signing_alg_values_supported": []string{"RS256", "ES256", "PS256"},
+				"token_endpoint_auth_methods_supported": p.authMethods(), "claims_supported": []string{"sub", "iss", "aud"},
+				"backchannel_logout_supported": true, "frontchannel_logout_supported": true, "request_uri_parameter_supported": false,
+			} {
+				d[k] = v
+			}
 		}
 		if p.ChallengeMethods != nil {
 			d["code_challenge_methods_supported"] = p.ChallengeMethods
@@ -595,6 +621,13 @@ func (p *IdP) CurrentRefresh(rt string) (string, bool) {
 		return "", false
 	}
 	return l.Current, true
+}
+
+func (p *IdP) authMethods() []string {
+	if p.AuthMethods != nil {
+		return p.AuthMethods
+	}
+	return []string{"client_secret_basic", "client_secret_post"}
 }
 
 // WithdrawSigningKey replaces the signing key by key i of the pool under a new kid and publishes ONLY the new
